@@ -2590,24 +2590,19 @@ class Binop(Elemwise):
             columns = determine_column_projection(self, parent, dependents)
             columns = _convert_to_list(columns)
             columns = [col for col in self.columns if col in columns]
-            if (
-                isinstance(self.left, Expr)
-                and self.left.ndim > 1
-                and self.left.columns != columns
-            ):
-                left = self.left[columns]  # TODO: filter just the correct columns
-                changed = True
-            else:
-                left = self.left
-            if (
-                isinstance(self.right, Expr)
-                and self.right.ndim > 1
-                and self.right.columns != columns
-            ):
-                right = self.right[columns]  # TODO: filter just the correct columns
-                changed = True
-            else:
-                right = self.right
+            left, right = self.left, self.right
+            if isinstance(left, Expr) and left.ndim > 1:
+                # an operand only has some of the labels of the result when the
+                # two frames have different columns
+                left_columns = [col for col in left.columns if col in columns]
+                if left.columns != left_columns:
+                    left = left[left_columns]
+                    changed = True
+            if isinstance(right, Expr) and right.ndim > 1:
+                right_columns = [col for col in right.columns if col in columns]
+                if right.columns != right_columns:
+                    right = right[right_columns]
+                    changed = True
             if not changed:
                 return
 
